@@ -463,6 +463,23 @@ static void run_matrix(uint64_t seed, long cases)
       }
       do_mixout(o, demix, vbelow(&r, ch), vchance(&r, 50) ? 1 : 2, ch, frame_size, fin, out);
    }
+   /* saturation boundary of out_short: accumulator chosen so that acc + ((cell*sample+16384)>>15) lands on
+      32766..32769 and -32767..-32770 for a random cell of the matrix column */
+   for (c = 0; c < cases / 4 + 40; c++) {
+      int o = vrange(&r, 2, 6), demix = vbelow(&r, 2), n = o * o + 2, ch = vchance(&r, 50) ? n : n - 2;
+      int col = vbelow(&r, ch), row = vbelow(&r, ch), i, target, cell, inc, sample;
+      const MappingMatrix *h = demix ? DEMIX[o] : MIX[o];
+      opus_int16 out[38];
+      float fin[1];
+      cell = (demix ? DEMIXD[o] : MIXD[o])[h->rows * col + row];
+      sample = vchance(&r, 50) ? vrange(&r, -32768, 32767) : (vchance(&r, 50) ? 32767 : -32768);
+      fin[0] = (float)sample / 32768.f;
+      inc = (cell * sample + 16384) >> 15;
+      target = (vchance(&r, 50) ? 32766 : -32770) + (int)vbelow(&r, 4);
+      for (i = 0; i < ch; i++) out[i] = (opus_int16)(vchance(&r, 60) ? 0 : vrange(&r, -32768, 32767));
+      { int acc = target - inc; if (acc > 32767) acc = 32767; if (acc < -32768) acc = -32768; out[row] = (opus_int16)acc; }
+      do_mixout(o, demix, col, 1, ch, 1, fin, out);
+   }
    /* impulse round trips exactly as projection encode -> decode route them (short API) */
    {
       int o, sub, j;
